@@ -116,10 +116,10 @@ def isCore (x : Item) : Bool :=
 /-- a point at which another request may run, or the request is over -/
 def isSwitch (x : Item) : Bool := isYield x || isWait x || isFin x || isLockOk x
 
-/-- a step of the request's own code (not a deferred call, not a registered release), or its return -/
+/-- a step of the request's own code (not a deferred call, not a registered release), or its successful return -/
 def isDirectOrFin : Item → Bool
   | .act _ _ .direct => true
-  | .fin _ _ => true
+  | .fin true _ => true
   | _ => false
 
 def orB (f g : Item → Bool) : Item → Bool := fun x => f x || g x
@@ -252,7 +252,7 @@ def clauses (ep : String) : List (String × (Path → Bool)) := [
   ("allReleased", fun q => [RefKind.iks, .txref, .reverts].all (fun k => sinceOk (isTakeOk k) (isRelease k) never false q.reverse)),
   ("allUnlocked", fun q => sinceOk isLockOk isUnlock never false q.reverse),
   ("mutexReleased", fun q => sinceOk isMuLock isMuUnlock never false q.reverse),
-  ("ends", fun q => (match q.getLast? with | some x => isFin x | none => false) || q.any isPanic),
+  ("ends", fun q => (match q.getLast? with | some x => isFin x | none => false)),
   ("panicEnds", sinceOk isDirectOrFin never isPanic true),
   -- what the refinement proofs need, as automata (Model/Engine/SkelAuto.lean)
   ("automaton:chain", fun q => (ChainRef.crun .out0 q).isSome),
